@@ -250,7 +250,13 @@ class Run:
                 if op[0] == "set":
                     self.guard.set_policy(copy.deepcopy(self.pols[op[1]]))
                 else:
-                    d = asyncio.run(self.guard._evaluate_core_async(*make_req(op[1])))
+                    # what evaluate_sync does, with a loop of our own (asyncio.run would add a helper
+                    # thread per call only to shut the executor down)
+                    loop = asyncio.new_event_loop()
+                    try:
+                        d = loop.run_until_complete(self.guard._evaluate_core_async(*make_req(op[1])))
+                    finally:
+                        loop.close()
                     self.results[i].append(dec_dict(d))
         return target
 
@@ -264,11 +270,15 @@ class Run:
                 out["errors"].append("%s raised %s: %s" % (n, type(exc).__name__, exc))
         # cache content before the fresh evaluations (what the overlapping threads left behind)
         out["cache_before_post"] = self._cache_view(exp)
-        for e in post:
-            try:
-                out["post"].append(dec_dict(g.evaluate_sync(*make_req(e))))
-            except Exception as ex:  # noqa: BLE001
-                out["post"].append({"!raise": type(ex).__name__})
+        loop = asyncio.new_event_loop()
+        try:
+            for e in post:
+                try:
+                    out["post"].append(dec_dict(loop.run_until_complete(g.evaluate_async(*make_req(e)))))
+                except Exception as ex:  # noqa: BLE001
+                    out["post"].append({"!raise": type(ex).__name__})
+        finally:
+            loop.close()
         out["cache"] = self._cache_view(exp)
         pol_ix = [i for i, p in enumerate(self.pols) if g.policy == p]
         out["policy"] = pol_ix[0] if pol_ix else -1
@@ -495,49 +505,30 @@ def enumerate_coarse(cache, progs, limit=None, rng=None, nocompile=False):
 
 
 def _enumerate_coarse(cache, progs, limit=None, rng=None, nocompile=False):
-    """all complete coarse schedules of `progs` (list of thread ids), enumerated by the model itself,
-    level by level; with limit+rng: that many random walks instead.  Also returns the blocked
-    situations met: (prefix, thread) where the model says the thread's next access is disabled."""
+    """all complete coarse schedules of `progs` (list of thread ids), enumerated by the extracted model
+    itself (swap.all); with limit+rng: that many seeded random walks (swap.walk) instead.  Also returns
+    blocked situations: (prefix, thread) where the model says the thread's next access is disabled."""
     cfg = {"p0": 0, "has_cache": cache != "none", "untagged": [], "uncompilable": [0, 1] if nocompile else []}
     n = len(progs)
-    done, blocked = [], []
     if limit is None:
-        frontier = [[]]
-        while frontier:
-            outs = [lib.dec(x) for x in lib.run_model(
-                "swap", [lib.model_call("swap.runc", cfg, progs, p) for p in frontier])]
-            nxt = []
-            for p, o in zip(frontier, outs):
-                if all(x == "done" for x in o["next"]):
-                    done.append(p)
-                    continue
-                en = [i for i in range(n) if o["en"][i]]
-                for i in range(n):
-                    if o["next"][i] != "done" and not o["en"][i]:
-                        blocked.append((p, i))
-                if not en:
-                    raise RuntimeError("model deadlock after %r" % (p,))
-                nxt.extend(p + [i] for i in en)
-            frontier = nxt
-        return done, blocked
-    walks = [[] for _ in range(limit)]
-    live = list(range(limit))
-    while live:
-        outs = [lib.dec(x) for x in lib.run_model(
-            "swap", [lib.model_call("swap.runc", cfg, progs, walks[w]) for w in live])]
-        nl = []
-        for w, o in zip(live, outs):
-            if all(x == "done" for x in o["next"]):
-                continue
-            en = [i for i in range(n) if o["en"][i]]
-            for i in range(n):
-                if o["next"][i] != "done" and not o["en"][i]:
-                    blocked.append((list(walks[w]), i))
-            walks[w].append(rng.choice(en))
-            nl.append(w)
-        live = nl
-    uniq = sorted({tuple(w) for w in walks})
-    return [list(w) for w in uniq], blocked
+        done = lib.dec(lib.run_model("swap", [lib.model_call("swap.all", cfg, progs)])[0])
+        if any(len(d) >= 64 for d in done):
+            raise RuntimeError("C09 harness: enumeration fuel exhausted")
+    else:
+        lines = [lib.model_call("swap.walk", cfg, progs, [rng.randrange(1 << 20) for _ in range(64)])
+                 for _ in range(limit)]
+        done = [list(w) for w in sorted({tuple(lib.dec(x)) for x in lib.run_model("swap", lines)})]
+    # blocked situations among the prefixes of a few schedules
+    import random as _r
+
+    prng = rng or _r.Random(len(done))
+    pref = []
+    for d in (done if len(done) <= 40 else prng.sample(done, 40)):
+        pref.extend(d[:k] for k in range(1, len(d)))
+    pref = [list(t) for t in sorted({tuple(p) for p in pref})]
+    outs = [lib.dec(x) for x in lib.run_model("swap", [lib.model_call("swap.runc", cfg, progs, p) for p in pref])]
+    blocked = [(p, i) for p, o in zip(pref, outs) for i in range(n) if o["next"][i] != "done" and not o["en"][i]]
+    return done, blocked
 
 
 # ----------------------------------------------------------------------------------
@@ -770,8 +761,8 @@ def run(chk):
                 "accesses of set_policy(B) || evaluate(r) for both requests, per cache kind (built-in, dict-backed, "
                 "none) and policy kind (single, set, single->set without compiler), each followed by fresh "
                 "evaluations of both requests; set_policy(B);set_policy(A) || evaluate and set_policy(B) || "
-                "evaluate;evaluate: every interleaving on the built-in cache (all configurations in thorough), a "
-                "seeded sample on the others; set_policy(B) || evaluate || evaluate: seeded sample (the full set "
+                "evaluate;evaluate (799 interleavings, all on the built-in cache) and A->B->A (2506 interleavings: all "
+                "in thorough, a seeded sample in quick); set_policy(B) || evaluate || evaluate: seeded sample (the full set "
                 "is out of reach); lock probes where the model says blocked; on the implementation alone: every "
                 "interleaving of the located accesses that the implementation admits, every source-line schedule "
                 "up to the pre-emption bound, seeded random line schedules beyond.  non-trivial = the schedule "
@@ -826,8 +817,8 @@ def run(chk):
     # 2. A -> B -> A || one evaluator
     for ci, (cache, pol) in enumerate(CONFIGS):
         progs = [U2, [["eval", ci % 2]]]
-        if quick and ci > 0:
-            scheds, _ = enumerate_coarse(cache, progs + [[]], limit=150, rng=rng)
+        if quick:
+            scheds, _ = enumerate_coarse(cache, progs + [[]], limit=(500 if ci == 0 else 150), rng=rng)
         else:
             scheds, _ = enumerate_coarse(cache, progs + [[]])
             enum_stats["ABA||E"] = len(scheds)
